@@ -28,7 +28,9 @@ func init() {
 			"S7: every Marshal* store into the destination (also in a private function the buffer is handed to) is dominated by a length guard on the index/window and every copy has a destination of exactly len(src) elements or one the guards show to be no shorter, so a short buffer is an error and never a silent truncation. " +
 			"S8: the varint decoder rejects only on exhausted input (position == len(buf), an empty cursor, or a not-found count of a scan that ran to len(buf)) or on a counter guard that cannot fire while groups an encoder can produce are still to be read (threshold reasoning on the induction variables). S9: a fixed-width coder refuses a buffer only when it is shorter than the N bytes it codes (a buffer of exactly N bytes - what the encoder produced - is accepted). " +
 			"S10: in every function of the codec package, the error of every emission (a Write on the destination io.Writer, or a call of a package function that transitively does one and reports an error) reaches the caller: on every path from the emission to a return the emission's error is known to be nil, or the returned error is that very error, or it is known to be non-nil (decided per path, phi operands and result variables resolved by the path); an emission whose error is never read is violated. " +
-			"S11: a scratch region that is released to shared storage ((*sync.Pool).Put, a channel send, directly or through a private function that does so with its parameter) is not used afterwards - no path from the release to an instruction that uses the region or an alias of it (window, pointer, element address) other than through the instruction that obtains a region anew; a deferred release counts at the return.",
+			"S11: a scratch region that is released to shared storage ((*sync.Pool).Put, a channel send, directly or through a private function that does so with its parameter) is not used afterwards - no path from the release to an instruction that uses the region or an alias of it (window, pointer, element address) other than through the instruction that obtains a region anew; a deferred release counts at the return. " +
+			"S12: the destination of every emission in the codec package (receiver of an interface Write/WriteByte/WriteString, a writer handed to another call) originates - through type assertions, phis, locals, results of package functions and parameters of private functions followed to their call sites - from values read in the same call, never from a private field of a struct that has an exported io.Writer field (the stream writer): every byte goes to the current value of the exported field. " +
+			"S13: no exit of UnmarshalBytes/UnmarshalString (exported decoders whose value is a byte slice or string) that can report an error is controlled by a condition computed from the decoded body (the value the other exits return, followed back through casts, copies and phis to the window, the copy or the delegate's value result; anything computed from it except len/cap), since the encoders accept every byte sequence.",
 		NotDecided: "the round-trip equality decode(encode(x))=x as a value statement; the shift/or arithmetic inside the loops.",
 	})
 	register(&Check{
@@ -977,6 +979,8 @@ func runC15(c *Ctx) {
 	c.tightSizeGuards()
 	c.writerErrorsReported()
 	c.scratchNotTouchedAfterRelease()
+	c.writesToCurrentDestination() // S12 (v_codec_writer.go)
+	c.decodersAcceptEveryBody()    // S13 (v_codec_domain.go)
 	// S7 short buffer is an error
 	handedTo := map[*ssa.Parameter]bool{}
 	for _, fn := range xbinaryFuncs(c, "Marshal") {
